@@ -43,6 +43,10 @@ def kindLower : Act → String
   | .servicingPooling => "servicingpoolingtrip"
   | .dispatchPooling => "dispatchpoolingtrip"
 
+/-- `mechatronics.range_remaining_km`: energy level × nominal distance per unit of energy
+    (BEV: km per kWh from `nominal_watt_hour_per_mile`; ICE: km per gallon from `nominal_miles_per_gallon`) -/
+def rangeKm (level kmPerUnit : Rat) : Rat := level * kmPerUnit
+
 /-- `_is_valid_for_dispatch`: dispatchable activity, not paired while an earlier fleet was solved,
     driver on shift, open to the fleet (a vehicle without any membership counts as open to every
     fleet - known finding F6), enough remaining range (a vehicle charging at a base must also have
